@@ -16,6 +16,20 @@ import (
 
 func init() {
 	ops["crew"] = runCrew
+	ops["timersgen"] = func(cfg Config) {
+		enc := json.NewEncoder(out)
+		g := gen.New(cfg.Seed)
+		for i := 0; i < cfg.N; i++ {
+			var c gen.TimerCase
+			if i%5 == 4 {
+				c = g.TimerRaceCase(cfg.Profile)
+			} else {
+				c = g.TimerCase(cfg.Profile)
+			}
+			c.Id = i
+			enc.Encode(c)
+		}
+	}
 	ops["mcrewgen"] = func(cfg Config) {
 		enc := json.NewEncoder(out)
 		g := gen.New(cfg.Seed)
